@@ -728,8 +728,14 @@ func vacuityGuard(encs []*Enc, prop, tier string) string {
 			fmt.Println("NOTE: return provably unreachable under the contracts:", v.Obl.Name, v.Obl.Pos)
 		}
 	}
+	noRet := map[string]bool{}
+	for _, e := range encs {
+		if e.callsNoReturn {
+			noRet[e.key] = true
+		}
+	}
 	for f := range hasRet {
-		if !reachable[f] {
+		if !reachable[f] && !noRet[f] {
 			return "every return of " + f + " is provably unreachable under its contract (contradictory requires or callee contracts?)"
 		}
 	}
